@@ -169,7 +169,7 @@ func (p *Path) schedule(self *Thread, mustSwitch bool) {
 		return
 	}
 	next := cands[0]
-	if len(cands) > 1 {
+	if len(cands) > 1 && !(mustSwitch && p.P.cfg.SchedFIFO) {
 		alts := make([]*Term, len(cands))
 		next = cands[p.choose(alts, "sched")]
 	}
